@@ -53,7 +53,8 @@ def ref_encode_native(fmt, t, v, fam, ns):
     if k == "nt":
         return [ref_encode_native(fmt, f.ty, x, fam, ns) for f, x in zip(fam.get(t.name).fields, v)]
     if k == "td":
-        return {f.name: ref_encode_native(fmt, f.ty, v[f.name], fam, ns) for f in fam.get(t.name).fields if f.name in v}
+        # required keys first, then the optional keys present (each group in declaration order)
+        return {f.name: ref_encode_native(fmt, f.ty, v[f.name], fam, ns) for f in gen.td_order(fam.get(t.name)) if f.name in v}
     return ref.ref_encode(t, v, fam, ns)
 
 
@@ -74,8 +75,9 @@ def run(ctx: vlib.Ctx):
                     "recognised tests and returned templates are listed explicitly, anything else fails closed)"]
     ctx.trusted += ["TyModel.v (cp/pk: hand-written model of pack.py registry order, copy-vs-comprehension and could_be_none decisions) "
                     "tied by vm_compute correspondence; stdlib renderings (isoformat, str, total_seconds, encodebytes, Enum.value) are oracle tables"]
-    ctx.assumptions += ["format dialect part (orjson/msgpack/TOML native types, TOML null dropping) and NamedTuple/TypedDict/ChainMap/Counter/unions/literals "
-                        "are decided by the reference-interpreter oracle only (outside the Coq grammar)"]
+    ctx.assumptions += ["format dialect part (orjson/msgpack/TOML native types, TOML null dropping) and ChainMap/Counter/unions/literals "
+                        "are decided by the reference-interpreter oracle only (outside the Coq grammar); NamedTuple (as_list form) and TypedDict "
+                        "(required keys, then the optional keys present) are inside the Coq grammar; namedtuple_as_dict and generic NamedTuples/TypedDicts are oracle only"]
 
     cases, bad, log = tycorr.run(ctx, "c02_ty", ctx.budget(40, 300), 3, depth=3, foreign=1)
     hits = tyoracle.report_corr(ctx, "TyModel.pk/ref_enc vs BasicEncoder.encode", cases, bad, log, want="enc")
